@@ -1161,6 +1161,26 @@ FUNCS = [
                    ("let fps = discover_local_fingerprints(root).unwrap_or_default();", ""),
                    ('let map = fps .into_iter() .filter(|(p, _)| !p.starts_with(".copia")) .map(|(p, f)| (p.to_string_lossy().into_owned(), f)) .collect();',
                     'let map := (tree.filter fun e => e.1.head? ≠ some ".copia".toList).map fun e => (e.1, hash e.2)')]),
+    # ---- meta.rs: the two local scans built on the walker
+    dict(group="scan", file="src/bin/copia/meta.rs", name="discover_local_fingerprints", sig=None, option=True, no_loop=True,
+         lean="def discoverFingerprints {P C : Type} [DecidableEq P] (discover_local_files : Option (List P)) (fingerprint_path : P → Option C) :\n"
+              "    Option (List (P × C)) := Id.run do\n"
+              "  -- world: the walker's answer (none = it failed) and, per listed file, whether its fingerprint could be read",
+         paths={"FpMap::new": "[]"}, calls={"Ok": lambda a: a[0]},
+         block_heads=[dict(rust="for rel in discover_local_files(root)? {", indent=2,
+                           before="let some files_ := discover_local_files | return none\nfor rel in files_ do")],
+         verbatim=[("if let Ok(fp) = fingerprint_path(&root.join(&rel)) { out.insert(rel, fp); }",
+                    "if let some fp := fingerprint_path rel then\n  out := Copia.ScanSupport.mapIns out rel fp")]),
+    dict(group="scan", file="src/bin/copia/meta.rs", name="discover_local_with_meta", sig=None, option=True, no_loop=True,
+         lean="def discoverWithMeta {P M : Type} [DecidableEq P] (discover_local_files : Option (List P)) (metadata : P → StatRes M) :\n"
+              "    Option (List (P × M)) := Id.run do\n"
+              "  -- world: the walker's answer and, per listed file, what its `stat` gives: the metadata, NotFound, or another error",
+         paths={"MetaMap::new": "[]"}, calls={"Ok": lambda a: a[0]},
+         block_heads=[dict(rust="for rel in discover_local_files(root)? {", indent=2,
+                           before="let some files_ := discover_local_files | return none\nfor rel in files_ do")],
+         verbatim=[("match std::fs::metadata(root.join(&rel)) { Ok(meta) => { out.insert( rel, FileMeta { size: meta.len(), mtime: mtime_secs(&meta), }, ); } "
+                    "Err(e) if e.kind() == std::io::ErrorKind::NotFound => {} Err(e) => return Err(e.into()), }",
+                    "match metadata rel with\n| StatRes.ok m_ => out := Copia.ScanSupport.mapIns out rel m_\n| StatRes.notFound => pure ()\n| StatRes.otherError => return none")]),
     dict(group="hubsync", file="src/bin/copia/hub.rs", fn="hub_sync", sig=None,
          name="hub_sync (the push loop: from the counters to the end of the `for`)",
          slice=("let (mut sent, mut skipped, mut conflicts) = (0u64, 0u64, 0u64);", "hub kept a conflict-copy\");"), slice_close=2,
@@ -1310,6 +1330,7 @@ GROUP_HEAD = {
     "hub": ("import Copia.Model.Hub", "open Copia.Hub (Comp components)"),
     "hubsync": ("import Copia.Model.HubSync", ""),
     "archive": ("", ""),
+    "scan": ("import Copia.Model.ScanSupport", "open Copia.ScanSupport (StatRes)"),
     "codec": ("import Copia.Model.Codec\nimport Copia.Gen.Decisions", "open Copia.Codec"),
     "wire": ("import Copia.Model.Hub\nimport Copia.Model.WireSupport", "open Copia.WireSupport (FrameRes)\nopen Copia.Hub (Req Reply Session Exit HTree)"),
     "hubput": ("import Copia.Model.HubTrace\nimport Copia.Model.Hub", "open Copia.HubConc (Call Chunk Hash)"),
@@ -1319,7 +1340,7 @@ GROUP_HEAD = {
               "open Copia.Delta Copia.DeltaSupport\nopen Copia.Checksum (Fast)"),
 }
 
-GROUPS = {"reconcile": "LoopsReconcile.lean", "plan": "LoopsPlan.lean", "bidir": "LoopsBidir.lean", "delta": "LoopsDelta.lean", "hub": "LoopsHub.lean", "hubsync": "LoopsHubSync.lean", "hubput": "LoopsHubPut.lean", "wire": "LoopsWire.lean", "archive": "LoopsArchive.lean", "codec": "LoopsCodec.lean", "crash": "LoopsCrash.lean", "deliver": "LoopsDeliver.lean"}
+GROUPS = {"reconcile": "LoopsReconcile.lean", "plan": "LoopsPlan.lean", "bidir": "LoopsBidir.lean", "delta": "LoopsDelta.lean", "hub": "LoopsHub.lean", "hubsync": "LoopsHubSync.lean", "hubput": "LoopsHubPut.lean", "wire": "LoopsWire.lean", "archive": "LoopsArchive.lean", "scan": "LoopsScan.lean", "codec": "LoopsCodec.lean", "crash": "LoopsCrash.lean", "deliver": "LoopsDeliver.lean"}
 
 
 def translate(group):
